@@ -31,7 +31,7 @@ class Contract:
                  may_raise=False, consts=None, callee_alias=None, spec_funcs=None,
                  check_bounds=True, div_side=True, assumed=False, source="", shapes=None,
                  notes="", abstract_fp=True, ghost_decl=None, ghost_after=None, gen=None, spec_src=None,
-                 axioms=(), assume_asserts=None):
+                 axioms=(), assume_asserts=None, neg_inf_sentinel=False):
         self.name = name  # 'util._constrain_ages'
         self.mode = mode
         self.requires = [c.expr if isinstance(c, Clause) else c for c in requires]
@@ -56,6 +56,7 @@ class Contract:
         self.shapes = dict(shapes or {})  # param -> list of ints/None/param-size names
         self.params = None  # filled from the AST
         self.notes = notes
+        self.neg_inf_sentinel = neg_inf_sentinel  # real mode: -inf is the constant NINF, below every other value
         self.axioms = list(axioms)  # definitional axioms of spec functions (assumed at entry)
         self.assume_asserts = dict(assume_asserts or {})  # source text of a real-code assert -> reason it is NOT proved
         self.gen = gen  # name of the concrete input generator in rt/gens.py
